@@ -19,8 +19,8 @@ RULE = (
 TRUSTED = ["models: lean/SRVerif/Model/{Rec,LabelDP,Solvers}.lean (table minima through the op table_min)"]
 ASSUMPTIONS = ["cost vectors inside spe + 2*sloss <= dup + 2*floss"]
 OPEN = [
-    "C10_unordered_le_ordered needs C03 at full strength (SuperDTL against non-canonical labellings): stated, explored",
-    "C10_ext_le_base, C10_single_family: stated in Lean; corollaries proved conditionally on the optimality statements of C01-C03",
+    "C10_unordered_le_ordered_statement (Properties/C10All.lean): unordered optimum <= ordered optimum on every input - "
+    "stated, explored by the check; proved with equality on single-family inputs (C10_unordered_eq_ordered_single)",
 ]
 
 ALGOS = ["lca", "thl", "base_spfs", "ext_spfs", "base_uspfs", "superdtl"]
